@@ -16,7 +16,7 @@ open CC CC.HT CC.Spec
 yields the entries of the map — each exactly once, keys pairwise distinct — and the next call
 reports `CC_ITER_END`; the table is unchanged. -/
 theorem fresh_iterator_yields_all (c : HCfg) (t : HashTable) (m : Mem) (n : Nat) (h : t.Inv c)
-    (hl : t.size + 2 ≤ m.live) (hn : t.size ≤ n) :
+    (hl : t.size + 2 ≤ liveOf m t.triple) (hn : t.size ≤ n) :
     let r := HashTable.drive c (List.replicate n false) t (t.iterInit m).1 m
     r.1.map HashTable.pair = t.abs ∧ (r.1.map (·.key)).Nodup ∧ r.1.length = t.size ∧
     r.2.1.abs = t.abs ∧ r.2.1.iterNext r.2.2.1 r.2.2.2 = (.iterEnd, none, r.2.2.1, r.2.2.2) := by
@@ -41,7 +41,7 @@ theorem fresh_iterator_yields_all (c : HCfg) (t : HashTable) (m : Mem) (n : Nat)
 the yielded sequence is a prefix of the original entries (all of them when the program is long
 enough), the table finally holds exactly the original entries minus the removed ones, the invariant
 holds, nothing faults, and the call after the last entry reports the end. -/
-theorem iterator_program (c : HCfg) (t : HashTable) (m : Mem) (bs : List Bool) (h : t.Inv c) (hl : t.size + 2 ≤ m.live) :
+theorem iterator_program (c : HCfg) (t : HashTable) (m : Mem) (bs : List Bool) (h : t.Inv c) (hl : t.size + 2 ≤ liveOf m t.triple) :
     let r := HashTable.drive c bs t (t.iterInit m).1 m
     r.1 = t.buckets.flatten.take bs.length ∧ r.2.1.Inv c ∧
     r.2.1.abs = t.abs.filter (fun p => !(HashTable.removedKeys t.buckets.flatten bs).contains p.1) ∧
@@ -51,20 +51,50 @@ theorem iterator_program (c : HCfg) (t : HashTable) (m : Mem) (bs : List Bool) (
   HashTable.iter_program c t m bs h hl
 
 /-- one step: `next` yields the first pending entry (or END exactly when none is pending) and
-`remove` leaves the cursor in front of the same pending entries -/
+`remove` removes exactly it, clears `prev_entry` and leaves the cursor in front of the same pending entries -/
 theorem next_then_remove (c : HCfg) (t : HashTable) (it : HIter) (m : Mem) (e : Entry) (rest : List Entry)
     (h : t.Inv c) (hit : HashTable.ItInv t it (e :: rest)) (hnd : ((e :: rest).map (·.key)).Nodup) :
     (t.iterNext it m).1 = .ok ∧ (t.iterNext it m).2.1 = some e ∧
     HashTable.ItInv (t.remove c e.key m).2.2.1 (t.iterNext it m).2.2.1 rest ∧
-    t.iterRemove c (t.iterNext it m).2.2.1 m = t.remove c e.key m := by
+    (t.iterRemove c (t.iterNext it m).2.2.1 m).2.2.1 = (t.remove c e.key m).2.2.1 ∧
+    (t.iterRemove c (t.iterNext it m).2.2.1 m).1 = (t.remove c e.key m).1 := by
   obtain ⟨s1, s2, s3, s4, s5⟩ := (HashTable.iterNext_spec c t it m (e :: rest) h hit).2 e rest rfl
   have hne : ∀ x ∈ rest, x.key ≠ e.key := by
     intro x hx hxe
     apply (List.nodup_cons.mp hnd).1
     have := List.mem_map_of_mem (f := fun x : Entry => x.key) hx
     rw [hxe] at this; exact this
-  obtain ⟨q1, q2⟩ := HashTable.iterRemove_spec c t _ m rest e.key h s5 s4 hne
-  exact ⟨s1, s2, q2, q1⟩
+  obtain ⟨⟨q11, _, q13, _⟩, q2⟩ := HashTable.iterRemove_spec c t _ m rest e.key h s5 s4 hne
+  exact ⟨s1, s2, q2, q13, q11⟩
+
+/-- **arbitrary iterator programs** — any sequence of `next` and `remove` calls, including `remove`
+before the first `next`, `remove` twice for one entry and `remove` after END (all rejected with
+`CC_ERR_KEY_NOT_FOUND`, inert): same statuses, yielded entries and removed values as the ideal cursor
+over the map; the table finally holds the cursor's map; invariant, no fault, balanced ledger -/
+theorem any_program_refines (c : HCfg) (prog : List HashTable.IterOp) (t : HashTable) (m : Mem) (h : t.Inv c)
+    (hl : t.size + 2 ≤ liveOf m t.triple) :
+    (HashTable.iterRun c prog t (t.iterInit m).1 m).1 = ((HashTable.Cursor.mk t.buckets.flatten none).run t.abs prog).1 ∧
+    (HashTable.iterRun c prog t (t.iterInit m).1 m).2.1.abs = ((HashTable.Cursor.mk t.buckets.flatten none).run t.abs prog).2.2 ∧
+    (HashTable.iterRun c prog t (t.iterInit m).1 m).2.1.Inv c ∧
+    (HashTable.iterRun c prog t (t.iterInit m).1 m).2.2.2.fault = m.fault ∧
+    liveOf (HashTable.iterRun c prog t (t.iterInit m).1 m).2.2.2 t.triple + t.size =
+      liveOf m t.triple + (HashTable.iterRun c prog t (t.iterInit m).1 m).2.1.size := by
+  obtain ⟨b1, b2, b3, _, b5, b6, _⟩ := HashTable.iterRun_refines c prog t (t.iterInit m).1 m _ h (HashTable.iterInit_curRel c t m h) hl
+  exact ⟨b1, b2, b3, b5, b6⟩
+
+/-- the ideal cursor in its own vocabulary: `next` yields the head of `todo`; `remove` removes the
+last yielded entry once, and is rejected otherwise -/
+theorem cursor_laws (cur : HashTable.Cursor) (mp : Map) :
+    (cur.todo = [] → cur.step mp .next = ((.iterEnd, none, none), cur, mp)) ∧
+    (∀ e rest, cur.todo = e :: rest → cur.step mp .next = ((.ok, some e, none), ⟨rest, some e⟩, mp)) ∧
+    (cur.last = none → cur.step mp .remove = ((.errKeyNotFound, none, none), cur, mp)) ∧
+    (∀ e, cur.last = some e → cur.step mp .remove = ((.ok, none, some e.value), ⟨cur.todo, none⟩, Map.erase mp e.key)) := by
+  obtain ⟨todo, last⟩ := cur
+  refine ⟨?_, ?_, ?_, ?_⟩
+  · intro h; simp only at h; subst h; rfl
+  · intro e rest h; simp only at h; subst h; rfl
+  · intro h; simp only at h; subst h; rfl
+  · intro e h; simp only at h; subst h; rfl
 
 /-- the hash-set iterator is the table iterator yielding the key -/
 theorem set_iterator (s : HashSet) (it : HIter) (m : Mem) :
@@ -74,7 +104,7 @@ theorem set_iterator (s : HashSet) (it : HIter) (m : Mem) :
 /-- **C07 for the hash set**: driving `cc_hashset_iter_next`/`iter_remove`: the yielded elements are
 the elements of the set in walk order (all of them, each once, when the program is long enough —
 `s.abs` has no duplicates), the set finally holds the elements whose removal was not requested -/
-theorem set_iterator_program (c : HCfg) (s : HashSet) (m : Mem) (bs : List Bool) (h : s.Inv c) (hl : s.size + 3 ≤ m.live) :
+theorem set_iterator_program (c : HCfg) (s : HashSet) (m : Mem) (bs : List Bool) (h : s.Inv c) (hl : s.size + 3 ≤ liveOf m s.triple) :
     (HashSet.drive c bs s (s.iterInit m).1 m).1 = (s.abs.take bs.length) ∧
     (HashSet.drive c bs s (s.iterInit m).1 m).2.1.Inv c ∧
     (HashSet.drive c bs s (s.iterInit m).1 m).2.1.abs =
@@ -87,7 +117,7 @@ theorem set_iterator_program (c : HCfg) (s : HashSet) (m : Mem) (bs : List Bool)
 any other presentation of the map), with pairwise distinct keys, then END — at every fill level,
 under every hash function -/
 theorem traversal_complete (c : HCfg) (t : HashTable) (m : Mem) (n : Nat) (sp : Map) (h : t.Inv c)
-    (hl : t.size + 2 ≤ m.live) (hn : t.size ≤ n) (hs : t.abs.Perm sp) :
+    (hl : t.size + 2 ≤ liveOf m t.triple) (hn : t.size ≤ n) (hs : t.abs.Perm sp) :
     ((HashTable.drive c (List.replicate n false) t (t.iterInit m).1 m).1.map HashTable.pair).Perm sp ∧
     (HashTable.drive c (List.replicate n false) t (t.iterInit m).1 m).1.length = t.size := by
   obtain ⟨f1, _, f3, _⟩ := fresh_iterator_yields_all c t m n h hl hn
@@ -96,7 +126,7 @@ theorem traversal_complete (c : HCfg) (t : HashTable) (m : Mem) (n : Nat) (sp : 
 /-- `program_refines`: any program with at most one removal per yield simulates the ideal cursor
 `(done, todo)` over the walk: yields = prefix of `todo`, content = original minus the removed -/
 theorem program_refines (c : HCfg) (bs : List Bool) (t : HashTable) (it : HIter) (m : Mem) (todo : List Entry)
-    (h : t.Inv c) (hit : HashTable.ItInv t it todo) (hnd : (todo.map (·.key)).Nodup) (hl : t.size + 2 ≤ m.live) :
+    (h : t.Inv c) (hit : HashTable.ItInv t it todo) (hnd : (todo.map (·.key)).Nodup) (hl : t.size + 2 ≤ liveOf m t.triple) :
     (HashTable.drive c bs t it m).1 = todo.take bs.length ∧
     (HashTable.drive c bs t it m).2.1.Inv c ∧
     (HashTable.drive c bs t it m).2.1.abs = t.abs.filter (fun p => !(HashTable.removedKeys todo bs).contains p.1) ∧
